@@ -181,6 +181,52 @@ def check_flatten():
     return cases, failures, [{'batch': [0, 1, 0]}]
 
 
+def check_textfile():
+    """C17: the real from_textfile source polled by hand over a scripted file object: every text of <= 6 characters over
+    {a, \\n} resp. {a, -} with delimiters '\\n', '\\n\\n', '--', '-a-', cut into <= 3 reads in every way: the records
+    delivered are exactly the leftmost split of the whole text (terminated records only), whatever the chunking."""
+    import asyncio
+    import itertools
+    from streamz.sources import from_textfile
+
+    class Scripted:
+        def __init__(self, chunks):
+            self.chunks = list(chunks)
+
+        def read(self):
+            return self.chunks.pop(0) if self.chunks else ''
+
+        def seek(self, *a):
+            pass
+
+    async def run(chunks, d):
+        src = from_textfile(Scripted(chunks), poll_interval=0, delimiter=d, start=False, asynchronous=True)
+        got = src.sink_to_list()
+        for _ in range(len(chunks) + 1):
+            await src._run()
+        return got
+    cases, failures = 0, []
+    for d, alphabet in (('\n', 'a\n'), ('\n\n', 'a\n'), ('--', 'a-'), ('-a-', 'a-')):
+        for n in range(0, 7):
+            for text in map(''.join, itertools.product(alphabet, repeat=n)):
+                parts = text.split(d)
+                want = [p + d for p in parts[:-1]]
+                cutsets = [()] + [(i,) for i in range(1, n)] + [(i, j) for i in range(1, n) for j in range(i + 1, n)]
+                for cuts in cutsets:
+                    b = [0] + list(cuts) + [n]
+                    chunks = [text[b[i]:b[i + 1]] for i in range(len(b) - 1)]
+                    cases += 1
+                    try:
+                        got = asyncio.run(run(chunks, d))
+                    except Exception as e:
+                        got = 'raised %s: %s' % (type(e).__name__, e)
+                    if got != want:
+                        failures.append({'op': 'from_textfile._run', 'delimiter': d, 'reads': chunks, 'delivered': got, 'expected': want})
+                        if len(failures) >= 3:
+                            return cases, failures, [{'delimiter': '--', 'reads': ['a-', '-a']}]
+    return cases, failures, [{'delimiter': '--', 'reads': ['a-', '-a']}]
+
+
 def main():
     pid, tier = sys.argv[1], sys.argv[2]
     repo = sys.argv[4] if len(sys.argv) > 4 else '/repo'
@@ -207,6 +253,13 @@ def main():
         c, f, smp = check_filenames()
         out.update({'cases': c, 'distinct': c, 'failures': f, 'samples': smp, 'ops': ['filenames._run'],
                     'space': 'every ordered choice of up to 4 file names split into at most 3 consecutive polls (plus an empty poll)'})
+        c2, f2, smp2 = check_textfile()
+        out['cases'] += c2
+        out['distinct'] += c2
+        out['failures'] = out['failures'] + f2
+        out['samples'] = out['samples'] + smp2
+        out['ops'] = out['ops'] + ['from_textfile._run']
+        out['space'] += "; from_textfile: every text of <= 6 characters over two-letter alphabets with delimiters \\n, \\n\\n, --, -a-, cut into <= 3 reads in every way"
     json.dump(out, sys.stdout, default=repr)
 
 
